@@ -5,9 +5,11 @@ package sym
 // substituting notation slots (// :@S1@) by texts chosen from the skeleton's menus.
 
 import (
+	"bytes"
 	"encoding/json"
 	"fmt"
 	"go/ast"
+	"go/printer"
 	"go/token"
 	"go/types"
 	"os"
@@ -178,6 +180,27 @@ func LayoutStubs(st map[string]StubFn) {
 		if r.Env["printer"] == "fail" {
 			r.Effects = append(r.Effects, Effect{Op: "printer.Fprint"})
 			return r.newError("<printer stopped by the harness>")
+		}
+		// a concrete (native) syntax tree: printed by the real go/printer, the text is appended to
+		// the interpreter-side buffer
+		fsetV, ok1 := a[1].(nativeV)
+		nodeI, ok2 := a[2].(iface)
+		w, ok3 := a[0].(iface)
+		if ok1 && ok2 && ok3 {
+			if nodeV, ok := nodeI.v.(nativeV); ok {
+				if wp, ok := w.v.(*value); ok {
+					if _, isStruct := (*wp).(structure); isStruct && w.t != nil && strings.HasSuffix(w.t.String(), "bytes.Buffer") {
+						var buf bytes.Buffer
+						err := printer.Fprint(&buf, exported(fsetV.rv).Interface().(*token.FileSet), exported(nodeV.rv).Interface())
+						if err != nil {
+							return r.newError(err.Error())
+						}
+						s := builderSlot(wp, 0)
+						*s = concatV(slotStr(s), buf.String())
+						return iface{}
+					}
+				}
+			}
 		}
 		panic(unsupported("go/printer.Fprint (library internals are outside the encoder)"))
 	}
@@ -361,6 +384,12 @@ func bytesVal(b []byte) value {
 func (r *Run) symbolicLoad(fr *frame, fn *ssa.Function, cfg structure, cfgT types.Type) value {
 	parseFile := structField(r, cfg, cfgT, "ParseFile")
 	fsetV := structField(r, cfg, cfgT, "Fset")
+	// the overlay handed to the loader is part of the observable call: one effect per entry
+	if ov, ok := structField(r, cfg, cfgT, "Overlay").(*mapV); ok && ov != nil {
+		for _, e := range ov.entries {
+			r.Effects = append(r.Effects, Effect{Op: "load.overlay", Args: []value{e.k, bytesToStr(e.v)}})
+		}
+	}
 	n := 0
 	if v, ok := r.Env["load.files"]; ok {
 		n = int(asInt64(v))
